@@ -12,7 +12,7 @@ VENV_PY = "/venv/bin/python"
 PROPS: dict[str, dict[str, Any]] = {
     "C04": {
         "level": "proof",
-        "sidecars": ["contracts/c04.py", "contracts/c04_eventset.py"],
+        "sidecars": ["contracts/c04.py", "contracts/c04_eventset.py", "contracts/c04_ingest.py"],
         "native_n": {"quick": 300, "thorough": 5000},
         "frame_scan": True,
         "bounded": [{"script": "bounded/model_harness.py", "args": []}],
